@@ -125,6 +125,18 @@ func evalMatcher(m *matcher, s state) mres {
 		return mres{false, m.status}
 	case 'l':
 		return mres{m.ekind == 1, -1}
+	case 'c':
+		if s.repl < 0 {
+			return mres{false, 0} // CEL cannot compare the unset placeholder: a plain error
+		}
+		return mres{m.vals[0] <= s.repl && s.repl <= m.vals[1], -1}
+	case 'k':
+		for _, v := range m.vals {
+			if v == s.repl {
+				return mres{true, -1}
+			}
+		}
+		return mres{false, -1}
 	}
 	for _, set := range m.sets {
 		r := evalSet(set, s)
@@ -237,6 +249,10 @@ func (x *specRun) tagSets(sets [][]*matcher) {
 				x.tag("matcher:error-kind-" + strconv.Itoa(m.ekind))
 			case 'l':
 				x.tag("matcher:legacy")
+			case 'c':
+				x.tag("matcher:expression-status-range")
+			case 'k':
+				x.tag("matcher:expression-status-list")
 			case 'n':
 				x.tag("matcher:not")
 				x.tagSets(m.sets)
@@ -431,7 +447,7 @@ func codeEval(rs []*route, hasErrs bool, errs []*route, q request) outcome {
 func setsCanErr(sets [][]*matcher) bool {
 	for _, s := range sets {
 		for _, m := range s {
-			if m.kind == 'e' || (m.kind == 'n' && setsCanErr(m.sets)) {
+			if m.kind == 'e' || m.kind == 'c' || (m.kind == 'n' && setsCanErr(m.sets)) {
 				return true
 			}
 		}
